@@ -1,8 +1,8 @@
 package run
 
 import (
-	"github.com/goghcrow/yae"
 	"fmt"
+	"github.com/goghcrow/yae"
 
 	"github.com/goghcrow/yae/parser"
 	"github.com/goghcrow/yae/parser/ast"
